@@ -2,6 +2,7 @@ import QV.Wire
 import QV.Shared.LexWire
 import QV.C06.Model
 import QV.C06.Spec
+import QV.Shared.Render
 /-! Driver side of the C06 correspondence check. -/
 namespace QV.C06
 open QV QV.Tok
@@ -82,6 +83,46 @@ def inScope (kind : String) (ident : List Char) : Bool :=
   Spec.validIdent ident &&
   (kind == "target" || kind == "variable" || !QV.Tok.isReservedWord ident)
 
+/-! ### render stream: is the real printer's text a gap layout covered by the render theorem? -/
+
+/-- Walk the text along the token list: before every token at most one space (the gap; never before an
+indentation), then one of the token's spellings — a `NewLine` stands for a run of newlines, an `Indentation`
+for a tab or four spaces, a `Float` for whatever the model lexer consumes there (which must be the same for
+equal bits: the formatter is a function).  Returns the forms and the formatter table. -/
+partial def walkLayout (ts : List Token) (txt : List Char) (forms : List QV.Render.Form)
+    (tbl : List (Nat × List Char)) : Option (List QV.Render.Form × List (Nat × List Char)) :=
+  match ts with
+  | [] => if txt.isEmpty then some (forms.reverse, tbl) else none
+  | t :: rest =>
+    let (gap, txt1) : Bool × List Char :=
+      match t, txt with
+      | .indentation, _ => (false, txt)        -- never a gap before an indentation
+      | _, ' ' :: r => (true, r)
+      | _, _ => (false, txt)
+    match t with
+    | .float b =>
+      match QV.Lex.lexToken txt1 with
+      | .ok (.float b') r =>
+        if b' == b then
+          let sp := txt1.take (txt1.length - r.length)
+          match tbl.lookup b with
+          | some sp' => if sp' == sp then walkLayout rest r (⟨gap, 0⟩ :: forms) tbl else none
+          | none => walkLayout rest r (⟨gap, 0⟩ :: forms) ((b, sp) :: tbl)
+        else none
+      | _ => none
+    | .newLine =>
+      let run := txt1.takeWhile (· == '\n')
+      if run.isEmpty then none else walkLayout rest (txt1.drop run.length) (⟨gap, run.length - 1⟩ :: forms) tbl
+    | .indentation =>
+      match txt1 with
+      | '\t' :: r => walkLayout rest r (⟨false, 0⟩ :: forms) tbl
+      | ' ' :: ' ' :: ' ' :: ' ' :: r => walkLayout rest r (⟨false, 1⟩ :: forms) tbl
+      | _ => none
+    | _ =>
+      let sp := QV.Render.renderToken ⟨fun _ => [], true⟩ t
+      if sp.isPrefixOf txt1 && !sp.isEmpty then walkLayout rest (txt1.drop sp.length) (⟨gap, 0⟩ :: forms) tbl
+      else none
+
 def handle (inp out : Sexp) : CaseResult :=
   match inp with
   | .list [.atom "lex", .str t] =>
@@ -148,6 +189,30 @@ def handle (inp out : Sexp) : CaseResult :=
                if pred.isNone then "unpredicted" else "predicted",
                if id.any Char.isUpper && id.any Char.isLower then "mixedcase" else "onecase"],
       detail := s!"ident={repr ident} model={repr (pred.map toString)} impl={out}" }
+  | .list [.atom "render", .str text] =>
+    let m := QV.Lex.lex text.toList
+    let mOut := QV.LexWire.lexOutSexp m
+    match m with
+    | none => { agree := mOut == out, specOk := false, nontrivial := true, tags := ["render", "lex-err"],
+                detail := s!"printer output does not lex: text={repr text} impl={out}" }
+    | some ts =>
+      -- trailing whitespace written by the printer (a final newline is a token; nothing else is expected)
+      match walkLayout ts text.toList [] [] with
+      | none => { agree := mOut == out, specOk := false, nontrivial := true, tags := ["render", "not-a-layout"],
+                  detail := s!"text is not a zero/one-space layout of its tokens: text={repr text} tokens={mOut}" }
+      | some (fs, tbl) =>
+        let st : QV.Render.Style := ⟨fun b => (tbl.lookup b).getD [], true⟩
+        let same := QV.Render.renderForms st ts fs == text.toList
+        let ren := QV.Render.renderableF st ts fs
+        let canon := QV.Lex.lex (QV.Render.render st ts) == some ts
+        let minimal := fs.map (·.gap) == (QV.Render.formsOf QV.Render.mustSep none ts).map (·.gap)
+        { agree := mOut == out, specOk := same && ren && canon, nontrivial := ts.length > 1,
+          tags := ["render", if minimal then "layout-minimal" else "layout-extra-spaces",
+                   if tbl.isEmpty then "no-floats" else "floats", s!"tokens{min (ts.length / 10) 10}x10"] ++
+                  (if fs.any (fun f => f.alt != 0) then ["variants(blank-lines/4-space-indent)"] else []) ++
+                  (if same then [] else ["layout-mismatch"]) ++ (if ren then [] else ["not-renderable"]) ++
+                  (if canon then [] else ["canonical-relex-differs"]),
+          detail := s!"text={repr text} renderable={ren} same={same} canon={canon} impl={out}" }
   | _ => .bad s!"undecodable input {inp}"
 
 end QV.C06
